@@ -194,9 +194,13 @@ def hookWriter (eff : Content → FS → FS) : Writer := fun w new _ budget =>
     calls := if hookArgsOk then [(new, .mod)] else [], viaHook := true }
 
 /-- the template file name a module records (`_template_filename`) when the Template was given the name `n`:
-the same name, provided `_CompileContext` stores it unchanged (`recordsFilenameVerbatim`, regenerated) - code
-that records a rewritten name (absolute, normalised …) records a *different* string for some names -/
-def recordedName (n : Nat) : Nat := if recordsFilenameVerbatim then n else n + 1
+the same name, because `_CompileContext` stores it unchanged (`recordsFilenameVerbatim`, regenerated; obligation
+`recordsFilenameVerbatim_on`, so the `else` branch is dead for the code as it is).  The `else` branch is what
+the model says of code that records a *rewritten* name with another normalised path - e.g. the absolute name for
+a relative one: name `n + 2` (`normOf (n + 2) ≠ normOf n`), so that the re-check after loading fires on every
+construction.  (A recorded name that is merely another spelling of the same normalised path would be harmless
+since the re-check compares `os.path.normpath` of both names.) -/
+def recordedName (n : Nat) : Nat := if recordsFilenameVerbatim then n else n + 2
 
 /-- what `_compile` produces from the current source -/
 def newContent (w : World) (size : Nat) : Content :=
